@@ -9,9 +9,12 @@ from . import common as C
 
 COEFS = {
     "forest": [[4.0, 2.0, 1.0], [2.5, 8.0, 1.0], [100.0, 0.5, 1.0]],
-    "demoor": [[-3.0, -5.0, -7.0, -1.0], [-0.5, -2.0, -4.0, -0.25], [-1.0, -16.0, -2.0, -8.0]],
-    "hendrix": [[1.0, 1.0, -0.5, -0.5], [2.0, 3.0, -0.25, -1.5], [1.5, 0.75, -1.0, -0.125]],
-    "mirjalili": [[0.0, -10.0, -20.0, -5.0, -1.0], [-1.0, -4.0, -3.0, -0.5, -2.0], [-0.25, -8.0, -1.0, -16.0, -0.5]],
+    # (the last set of each perishable problem has coefficients of BOTH signs: a salvage value for expired units, a
+    # rebate on orders - "costs" the constructors accept as negative numbers)
+    "demoor": [[-3.0, -5.0, -7.0, -1.0], [-0.5, -2.0, -4.0, -0.25], [-1.0, -16.0, -2.0, -8.0], [0.5, -4.0, 2.0, -1.0]],
+    "hendrix": [[1.0, 1.0, -0.5, -0.5], [2.0, 3.0, -0.25, -1.5], [1.5, 0.75, -1.0, -0.125], [2.0, -1.0, 0.5, -0.75]],
+    "mirjalili": [[0.0, -10.0, -20.0, -5.0, -1.0], [-1.0, -4.0, -3.0, -0.5, -2.0], [-0.25, -8.0, -1.0, -16.0, -0.5],
+                  [0.5, -6.0, -2.0, 3.0, 0.25]],
 }
 
 
